@@ -340,3 +340,109 @@ Theorem C04_binary_sound_filtersets :
       fst (filter_match_full (builder_new ri pb p (ets E d bq es) (dt E d bq) b) cur name ign) <> Matches.
 Proof. exact binary_prefilter_sound_for_filtersets. Qed.
 Print Assumptions C04_binary_sound_filtersets.
+
+(* ---- the whole two-pass listing (TestList::process_output), not one filter_match call.
+
+   For one binary with listings [ni] (printed without --ignored) and [ig] (printed with it),
+   duplicate-free, and a partition accepted by parse_shards (1 <= m <= n; Properties/C13.v,
+   C13_parse_valid): a test is in the selected set of the listing iff, for its ignored class c
+   (c = true: it is in the ignored listing; c = false: it is in the first listing only), the
+   ignored policy admits c, the name patterns, the -E filtersets and the default filter accept
+   it, and the partition takes it, where "takes" is stated for the listing as a whole:
+     count   the test is the j-th (0-based) of the tests of class c of this binary that satisfy
+             the four other clauses, in name order, and j mod n + 1 = m;
+     hash    xxh64 (name, seed 0) mod n + 1 = m;
+     none    always.
+   [candidates f c ni ig] is that name-ordered list (C04_candidates_are_the_other_four).
+   Which default filter [dt] stands for (the profile-level default-filter or a per-platform
+   override of it) is decided before the filter is built and is not modelled here. *)
+From NextestModel Require Import Proofs.PartitionWhole Proofs.FilterWhole.
+
+Theorem C04_whole_listing_selected_iff :
+  forall ri pb p ets dt b ni ig nm,
+    wf_patterns p -> valid_pb pb -> NoDup ni -> NoDup ig ->
+    let f := builder_new ri pb p ets dt b in
+    (In nm (matched (process_output (tf_pb f) (pre_full f) ni ig)) <->
+     exists c, In nm (class_names c ni ig) /\
+               ignored_ok ri c /\ name_ok p nm /\ expr_ok ets nm /\ default_ok b dt nm /\
+               takes pb (candidates f c ni ig) nm).
+Proof. exact whole_listing_selected_iff. Qed.
+Print Assumptions C04_whole_listing_selected_iff.
+
+Theorem C04_candidates_are_the_other_four :
+  forall ri pb p ets dt b c ni ig nm,
+    wf_patterns p ->
+    (In nm (candidates (builder_new ri pb p ets dt b) c ni ig) <->
+     In nm (class_names c ni ig) /\
+     ignored_ok ri c /\ name_ok p nm /\ expr_ok ets nm /\ default_ok b dt nm).
+Proof. exact candidates_In. Qed.
+Print Assumptions C04_candidates_are_the_other_four.
+
+(* the same for the tests that actually run from the binary, the binary-level shortcut of
+   TestList::new included (Kleene premise as in C04_binary_sound) *)
+Theorem C04_run_set_iff :
+  forall ebs ets db dt ri pb p b ni ig nm,
+    Forall2 kleene_sound ebs ets -> kleene_sound db dt ->
+    wf_patterns p -> valid_pb pb -> NoDup ni -> NoDup ig ->
+    let f := builder_new ri pb p ets dt b in
+    (In nm (suite_selected (list_binary f ebs db ni ig)) <->
+     exists c, In nm (class_names c ni ig) /\
+               ignored_ok ri c /\ name_ok p nm /\ expr_ok ets nm /\ default_ok b dt nm /\
+               takes pb (candidates f c ni ig) nm).
+Proof. exact run_set_iff. Qed.
+Print Assumptions C04_run_set_iff.
+
+(* the partition clause of C04_selected_iff for shards accepted by parse_shards, free of
+   truncating subtraction: the count partitioner's counter is m - 1, or the hash shard is m *)
+Theorem C04_partition_clause_valid :
+  forall k m n cur name,
+    valid_shards m n = true ->
+    (partition_ok (Some (mkpb k m n)) cur name <->
+     match k with PCount => cur + 1 = m | PHash => hash_shard n name = m end).
+Proof. exact partition_ok_valid. Qed.
+Print Assumptions C04_partition_clause_valid.
+
+(* non-vacuity, and the seeded shape "one count partitioner shared by both passes": under
+   --run-ignored all with tests a and b(ignored), b satisfies the right-hand side for count:1/2
+   (it is the first candidate of the ignored class) and is selected by process_output, but not
+   by the listing with a shared counter -- the theorem does not survive that change *)
+Definition ex_all_count12 : tfilter :=
+  builder_new RIAll (Some (mkpb PCount 1 2)) patterns_default [] (fun _ => true) BAll.
+
+Example C04_whole_listing_example :
+  matched (process_output (tf_pb ex_all_count12) (pre_full ex_all_count12) [[97]; [98]] [[98]])
+    = [[97]; [98]] /\
+  candidates ex_all_count12 true [[97]; [98]] [[98]] = [[98]] /\
+  candidates ex_all_count12 false [[97]; [98]] [[98]] = [[97]] /\
+  takes (Some (mkpb PCount 1 2)) (candidates ex_all_count12 true [[97]; [98]] [[98]]) [98].
+Proof.
+  repeat split; try (vm_compute; reflexivity).
+  exists O. split; vm_compute; reflexivity.
+Qed.
+
+Example C04_shared_partitioner_refuted :
+  ~ (forall ri pb p ets dt b ni ig nm,
+        wf_patterns p -> valid_pb pb -> NoDup ni -> NoDup ig ->
+        let f := builder_new ri pb p ets dt b in
+        (In nm (matched (process_output_shared (tf_pb f) (pre_full f) ni ig)) <->
+         exists c, In nm (class_names c ni ig) /\
+                   ignored_ok ri c /\ name_ok p nm /\ expr_ok ets nm /\ default_ok b dt nm /\
+                   takes pb (candidates f c ni ig) nm)).
+Proof.
+  intros H.
+  assert (D2 : NoDup [[97]; [98]]).
+  { repeat constructor; cbn [In]; intros F; repeat destruct F as [F|F]; try discriminate F; exact F. }
+  assert (D1 : NoDup [[98]]).
+  { repeat constructor; cbn [In]; intros F; exact F. }
+  pose proof (H RIAll (Some (mkpb PCount 1 2)) patterns_default [] (fun _ => true) BAll
+                [[97]; [98]] [[98]] [98] I eq_refl D2 D1) as E.
+  cbv zeta in E. destruct E as [_ E].
+  assert (R : In [98] (matched (process_output_shared
+                 (tf_pb ex_all_count12) (pre_full ex_all_count12) [[97]; [98]] [[98]]))).
+  { apply E. exists true. split; [vm_compute; left; reflexivity|].
+    split; [exact I|]. split.
+    - split; [intros [F|[x [F _]]]; destruct F|left; split; reflexivity].
+    - split; [left; reflexivity|]. split; [left; reflexivity|].
+      exists O. split; vm_compute; reflexivity. }
+  vm_compute in R. destruct R as [R|R]; [discriminate R|exact R].
+Qed.
